@@ -194,11 +194,18 @@ def make_lock_class(get_sched):
 
         def release(self):
             s = get_sched()
+            freed = False
             if s is not None and s.cur is not None:
                 self.depth -= 1
                 if self.depth == 0:
                     self.owner = None
+                    freed = True
             self.real.release()
+            if freed:
+                hook = getattr(s, 'on_unlock', None)
+                if hook is not None:
+                    hook(s.cur)
+                s.yield_point('unlock')      # the moment a waiting thread can get in: a pre-emption point like the acquisition
 
         __enter__ = acquire
 
